@@ -115,9 +115,66 @@ def dataframe_checks(orders, trades):
     return res
 
 
+PMAX = 2 ** 32 - 1
+
+
+class SelfOracle:
+    """C19: the documented quantities recomputed from get_orders() / get_trades() of the *same* Python object, so
+    that the layout verdict does not depend on the object following the Rust twin's shuffle (that is C18's business).
+    Order tuples: (side, status, arr_time, end_time, vol, start_vol, price, trader_id, order_id); trade tuples:
+    (time, side, price, vol, active_id, passive_id)."""
+
+    def __init__(self, ctor):
+        _, self.t0, self.tick, self.step_size = ctor["args"][:4]
+        self.steps = 0
+        self.series = {k: [] for k in CANON_MD_KEYS}
+        self.row = None
+
+    def after_step(self, obj):
+        self.steps += 1
+        orders = norm(obj.get_orders())
+        trades = norm(obj.get_trades())
+        lo = self.t0 + (self.steps - 1) * self.step_size
+        traded = sum(t[3] for t in trades if lo <= t[0] < lo + self.step_size)
+        act = [o for o in orders if o[1] == 1]
+        bids = [o for o in act if o[0]]
+        asks = [o for o in act if not o[0]]
+        bb = max((o[6] for o in bids), default=0)
+        ba = min((o[6] for o in asks), default=PMAX)
+        lv = []
+        for i in range(10):
+            pb, pa = bb - i * self.tick, ba + i * self.tick
+            b = [o for o in bids if o[6] == pb]
+            a = [o for o in asks if o[6] == pa]
+            lv.append((sum(o[4] for o in b), len(b), sum(o[4] for o in a), len(a)))
+        self.row = [traded, bb, ba, sum(o[4] for o in bids), sum(o[4] for o in asks)] + [x for l in lv for x in l]
+        for k, v in zip(["trade_vol", "bid_price", "ask_price", "bid_vol", "ask_vol"], [self.row[0], bb, ba, self.row[3], self.row[4]]):
+            self.series[k].append(v)
+        for i, l in enumerate(lv):
+            for name, v in zip(("bid_vol", "n_bid", "ask_vol", "n_ask"), l):
+                self.series["%s_%d" % (name, i)].append(v)
+
+    def expected(self, m):
+        """documented value of call `m`, or None when this oracle has no opinion"""
+        if self.row is None:
+            return None
+        se = self.series
+        if m in ("level_1_data", "level_1_data_array"):
+            return self.row[:9]
+        if m in ("level_2_data", "level_2_data_array"):
+            return self.row
+        return {
+            "get_prices": [se["bid_price"], se["ask_price"]], "get_volumes": [se["bid_vol"], se["ask_vol"]],
+            "get_touch_volumes": [se["bid_vol_0"], se["ask_vol_0"]], "get_touch_order_counts": [se["n_bid_0"], se["n_ask_0"]],
+            "get_trade_volumes": se["trade_vol"],
+        }.get(m)
+
+
 def run_script(s, out):
     obj = make(s["kind"], s["ctor"])
     last_orders, last_trades = [], []
+    oracle = SelfOracle(s["ctor"]) if s.get("self_oracle") else None
+    diverged = False  # the object's state no longer follows the Rust twin (different shuffle): later values are not compared with it
     for ci, c in enumerate(s["calls"]):
         m = c["m"]
         out["executed"] += 1
@@ -144,6 +201,51 @@ def run_script(s, out):
                 last_orders = got_n
             if m == "get_trades":
                 last_trades = got_n
+            if oracle is not None and m == "step":
+                oracle.after_step(obj)
+            if oracle is not None and "exc" not in exp:
+                # verdict of C19: the value the same object's order and trade lists assign to the documented position
+                if "keys" in exp:
+                    if sorted(got_n.keys()) != sorted(CANON_MD_KEYS):
+                        out["mismatches"].append({"script": s["id"], "call": ci, "m": m, "expected": sorted(CANON_MD_KEYS), "got": sorted(got_n.keys()), "what": "dictionary keys"})
+                        return
+                    for k in CANON_MD_KEYS:
+                        if got_n[k] != oracle.series[k]:
+                            out["mismatches"].append({"script": s["id"], "call": ci, "m": m, "expected": {k: oracle.series[k]}, "got": {k: got_n[k]}, "what": "series bound to key %r" % k})
+                            return
+                    out["self_oracle_checks"] += 1
+                else:
+                    pe = oracle.expected(m)
+                    if pe is not None:
+                        if got_n != pe:
+                            what = "return value"
+                            if c.get("layout"):
+                                if len(pe) != len(got_n):
+                                    what = "array length %d, documented %d" % (len(got_n), len(pe))
+                                else:
+                                    k = next(i for i in range(len(got_n)) if got_n[i] != pe[i])
+                                    what = "array element %d holds %r, documented quantity there is %r" % (k, got_n[k], pe[k])
+                            out["mismatches"].append({"script": s["id"], "call": ci, "m": m, "expected": pe, "got": got_n, "what": what, "oracle": "recomputed from get_orders/get_trades of the same object"})
+                            return
+                        out["self_oracle_checks"] += 1
+                twin = exp["v"] if "keys" not in exp else None
+                if "keys" in exp:
+                    twin_ok = all(got_n.get(k) == v for k, v in exp["v"].items())
+                else:
+                    twin_ok = got_n == twin
+                if not twin_ok and (oracle.expected(m) is not None or "keys" in exp or diverged or m in ("get_orders", "get_trades")):
+                    # documented layout confirmed on the object itself, but the state differs from the Rust twin's
+                    if not diverged:
+                        out["twin_divergences"] += 1
+                    diverged = True
+                if diverged:
+                    if c.get("layout"):
+                        out["layout_checks"] += 1
+                        if c.get("asym"):
+                            out["asymmetric_layout_checks"] += 1
+                    if "keys" in exp:
+                        out["dict_checks"] += 1
+                    continue
             if "exc" in exp:
                 out["mismatches"].append({"script": s["id"], "call": ci, "m": m, "args": c.get("args"), "kwargs": c.get("kwargs"), "expected": exp, "got": got_n, "what": "expected exception, call returned"})
                 return
@@ -185,7 +287,7 @@ def run_script(s, out):
 
 def main():
     doc = json.load(open(sys.argv[1]))
-    out = {"executed": 0, "exceptions": 0, "mismatches": [], "layout_checks": 0, "asymmetric_layout_checks": 0, "dict_checks": 0, "dataframe_checks": 0, "scripts": 0, "errors": []}
+    out = {"executed": 0, "exceptions": 0, "mismatches": [], "layout_checks": 0, "asymmetric_layout_checks": 0, "dict_checks": 0, "dataframe_checks": 0, "scripts": 0, "errors": [], "self_oracle_checks": 0, "twin_divergences": 0}
     if doc.get("doc_tables"):
         out["doc"] = doc_tables()
     for s in doc["scripts"]:
